@@ -13,6 +13,7 @@ mod oracles;
 mod sima;
 mod simb;
 mod simd;
+mod jumbo;
 
 use std::collections::BTreeMap;
 use std::sync::atomic::{AtomicBool, AtomicUsize, Ordering};
@@ -42,6 +43,7 @@ pub enum Sim {
     AStore,
     ACorner,
     DCpu,
+    Jumbo,
 }
 
 impl Sim {
@@ -53,10 +55,11 @@ impl Sim {
             Sim::AStore => "A-stripe-store",
             Sim::ACorner => "A-corner-stripes",
             Sim::DCpu => "D-cpu-mask",
+            Sim::Jumbo => "J-jumbo-shards",
         }
     }
     fn from_name(s: &str) -> Option<Sim> {
-        [Sim::BEnc, Sim::BDec, Sim::BOneshot, Sim::AStore, Sim::ACorner, Sim::DCpu]
+        [Sim::BEnc, Sim::BDec, Sim::BOneshot, Sim::AStore, Sim::ACorner, Sim::DCpu, Sim::Jumbo]
             .into_iter()
             .find(|x| x.name() == s)
     }
@@ -71,6 +74,7 @@ impl Sim {
             Sim::AStore => sima::run_store(ch, ctx),
             Sim::ACorner => sima::run_corner(ch, ctx),
             Sim::DCpu => simd::run_cpu(ch, ctx),
+            Sim::Jumbo => jumbo::run_jumbo(ch, ctx),
         }
     }
 }
@@ -82,7 +86,7 @@ fn plan(prop: &str) -> Vec<(Sim, usize, usize)> {
         "C01" => vec![(AStore, 6000, 400_000), (BDec, 12_000, 600_000), (ACorner, 12, 400), (BOneshot, 3000, 100_000)],
         "C02" => vec![(BEnc, 16_000, 800_000), (AStore, 4000, 300_000), (BDec, 3000, 100_000), (ACorner, 8, 300)],
         "C03" => vec![(AStore, 6000, 400_000), (BEnc, 8000, 400_000), (BDec, 8000, 400_000), (ACorner, 24, 600)],
-        "C04" => vec![(BEnc, 14_000, 700_000), (BDec, 10_000, 500_000), (AStore, 3000, 200_000)],
+        "C04" => vec![(BEnc, 14_000, 700_000), (BDec, 10_000, 500_000), (AStore, 3000, 200_000), (Jumbo, 0, 4)],
         "C05" => vec![(BEnc, 14_000, 800_000), (BDec, 12_000, 700_000), (AStore, 3000, 200_000)],
         "C06" => vec![(BEnc, 12_000, 600_000), (BDec, 12_000, 600_000), (BOneshot, 10_000, 500_000), (AStore, 3000, 200_000), (ACorner, 24, 600)],
         "C07" => vec![(BEnc, 14_000, 700_000), (BDec, 14_000, 700_000), (AStore, 3000, 200_000)],
@@ -99,7 +103,9 @@ fn plan(prop: &str) -> Vec<(Sim, usize, usize)> {
 
 /// The `checked` profile (overflow checks + debug assertions) runs a reduced plan.
 fn scale_for_profile(n: usize) -> usize {
-    if BUILD_PROFILE == "checked" {
+    if n == 0 {
+        0
+    } else if BUILD_PROFILE == "checked" {
         (n / 3).max(4)
     } else {
         n
@@ -743,7 +749,12 @@ fn self_cmd() -> std::process::Command {
 }
 
 fn job_list(args: &Args, prop: &str, tier: &str) -> Vec<(Sim, usize)> {
-    let mut jobs: Vec<(Sim, usize)> = plan(prop).into_iter().map(|(s, q, t)| (s, scale_for_profile(if tier == "thorough" { t } else { q }))).collect();
+    // (Sim J needs about 13 GiB and 10-20 s per run in the release profile: thorough tier, release profile only)
+    let mut jobs: Vec<(Sim, usize)> = plan(prop)
+        .into_iter()
+        .map(|(s, q, t)| (s, if s == Sim::Jumbo && BUILD_PROFILE == "checked" { 0 } else { scale_for_profile(if tier == "thorough" { t } else { q }) }))
+        .filter(|(_, n)| *n > 0)
+        .collect();
     if let Some(only) = args.get("sim").and_then(Sim::from_name) {
         jobs.retain(|j| j.0 == only);
     }
